@@ -114,3 +114,35 @@ def install_all():
     return ['ndarray.tobytes inside hash_args for object arrays -> structural key of the flattened terms (shape not included, as in float)',
             'get_quadrature -> same tables lifted to exact rationals (object arrays)',
             'MappingIsoparametric.invF on fully numeric input -> executed in float64, result lifted']
+
+
+class plain_numpy:
+    """Context manager: run the library as shipped (float64 NumPy, no proxy, no adapters) inside a symbolic configuration."""
+
+    def __enter__(self):
+        import importlib
+        self._inst = dict(symnp._installed)
+        symnp.uninstall()
+        self._had = dict(_saved)
+        if 'gq' in _saved:
+            importlib.import_module('skfem.assembly.basis.abstract_basis').get_quadrature = _saved['gq']
+        if 'invF' in _saved:
+            importlib.import_module('skfem.mapping.mapping_isoparametric').MappingIsoparametric.invF = _saved['invF']
+        if 'hash_args' in _saved:
+            cur = importlib.import_module('skfem.generic_utils').hash_args
+            for k, m in list(sys.modules.items()):
+                if k.startswith('skfem') and m is not None and getattr(m, 'hash_args', None) is cur:
+                    m.hash_args = _saved['hash_args']
+        _saved.clear()
+        return self
+
+    def __exit__(self, *a):
+        if self._inst:
+            symnp.install()
+        if 'gq' in self._had:
+            install_exact_quadrature()
+        if 'invF' in self._had:
+            install_invF_float_fold()
+        if 'hash_args' in self._had:
+            install_hash_tobytes()
+        return False
